@@ -40,12 +40,16 @@ STRUCTS = {
     "K": [[("L", S1), ("R", S1), ("W", S2, 1), ("L", S2)]],
     "M": [[("L", S1), ("R", S1), ("Q", 1)]],
     "N": [[("L", S1), ("R", S1), ("L", S1), ("W", S2, 1), ("L", S2)]],
+    # nested operators
+    "P": [[("N", [("L", S1)])]],
+    "Q": [[("N", [("L", S1)]), ("N", [("L", S1)])]],
+    "T": [[("L", S1), ("N", [("L", S2)]), ("S", S1)]],
 }
 QUICK = ["A", "B", "C", "D", "E", "I"]
 
 
 def build(struct, step=True):
-    ev, H, K, Y = [], [], [], []
+    ev, H, K, Y, allops = [], [], [], [], []
 
     def host(name, tag, cat="cpu_op", corr=None):
         i = len(ev)
@@ -58,32 +62,37 @@ def build(struct, step=True):
         H.append(h)
         return h
 
-    corr = 50
-    ops = []
-    for oi, items in enumerate(struct):
-        O = host("aten::mm" if oi % 2 == 0 else "aten::add", f"o{oi}")
-        ops.append(O)
-        if oi == 0 and step:
-            P = host("ProfilerStep#3", "step", cat="user_annotation")
+    state = {"corr": 50, "first": True}
+
+    def add_op(name, tag, items):
+        O = host(name, tag)
+        allops.append(O)
+        if state["first"]:
+            state["first"] = False
+            if step:
+                host("ProfilerStep#3", "step", cat="user_annotation")
         for j, it in enumerate(items):
-            if it[0] == "R":
-                Rr = host("cudaEventRecord", f"o{oi}r{j}", corr=corr)
+            corr = state["corr"]
+            if it[0] == "N":
+                # a nested operator with its own items
+                O["children"].append(add_op("aten::linear", f"{tag}n{j}", it[1]))
+            elif it[0] == "R":
+                Rr = host("cudaEventRecord", f"{tag}r{j}", corr=corr)
                 Rr["record"] = {"corr": corr, "stream": it[1], "after": [k for k in K if k["stream"] == it[1]]}
                 O["children"].append(Rr)
-                items_by_index = O.setdefault("items", {})
-                items_by_index[j] = Rr
-                corr += 1
+                O.setdefault("items", {})[j] = Rr
+                state["corr"] += 1
             elif it[0] in ("W", "Q"):
                 rec = O["items"][it[2] if it[0] == "W" else it[1]]["record"]
                 nm = "cudaStreamWaitEvent" if it[0] == "W" else "cudaEventSynchronize"
-                S = host(nm, f"o{oi}w{j}", corr=corr)
+                S = host(nm, f"{tag}w{j}", corr=corr)
                 O["children"].append(S)
                 i = len(ev)
                 st = it[1] if it[0] == "W" else -1
-                ev.append(TG.kernel("Stream Wait Event" if it[0] == "W" else "Event Sync", f"$o{oi}y{j}_ts",
-                                    f"$o{oi}y{j}_dur", stream=st, corr=corr, cat="cuda_sync",
+                ev.append(TG.kernel("Stream Wait Event" if it[0] == "W" else "Event Sync", f"${tag}y{j}_ts",
+                                    f"${tag}y{j}_dur", stream=st, corr=corr, cat="cuda_sync",
                                     wait_on_stream=rec["stream"], wait_on_cuda_event_record_corr_id=rec["corr"]))
-                y = {"id": i, "ts": f"$o{oi}y{j}_ts", "dur": f"$o{oi}y{j}_dur", "kind": "sync", "stream": st, "call": S,
+                y = {"id": i, "ts": f"${tag}y{j}_ts", "dur": f"${tag}y{j}_dur", "kind": "sync", "stream": st, "call": S,
                      "what": it, "waits": list(rec["after"][-1:]), "event": True}
                 S["syncev"] = y
                 if it[0] == "Q":
@@ -91,38 +100,41 @@ def build(struct, step=True):
                 else:
                     S["waitevent"] = {"stream": it[1], "src": list(rec["after"][-1:])}
                 Y.append(y)
-                corr += 1
+                state["corr"] += 1
             elif it[0] == "L":
-                L = host("cudaLaunchKernel", f"o{oi}l{j}", corr=corr)
+                L = host("cudaLaunchKernel", f"{tag}l{j}", corr=corr)
                 O["children"].append(L)
                 i = len(ev)
-                name = "gemm_kernel" if (oi + j) % 2 == 0 else "ncclKernel_AllReduce_RING_LL_Sum_float"
-                ev.append(TG.kernel(name, f"$o{oi}k{j}_ts", f"$o{oi}k{j}_dur", stream=it[1], corr=corr))
-                k = {"id": i, "ts": f"$o{oi}k{j}_ts", "dur": f"$o{oi}k{j}_dur", "kind": "kernel", "stream": it[1],
-                     "launch": L, "name": name}
+                name_k = "gemm_kernel" if (len(K)) % 2 == 0 else "ncclKernel_AllReduce_RING_LL_Sum_float"
+                ev.append(TG.kernel(name_k, f"${tag}k{j}_ts", f"${tag}k{j}_dur", stream=it[1], corr=corr))
+                k = {"id": i, "ts": f"${tag}k{j}_ts", "dur": f"${tag}k{j}_dur", "kind": "kernel", "stream": it[1],
+                     "launch": L, "name": name_k}
                 L["kernel"] = k
                 K.append(k)
-                corr += 1
+                state["corr"] += 1
             else:
                 nm = "cudaStreamSynchronize" if it[0] == "S" else "cudaDeviceSynchronize"
-                S = host(nm, f"o{oi}s{j}", corr=corr)
+                S = host(nm, f"{tag}s{j}", corr=corr)
                 S["sync"] = it
                 O["children"].append(S)
                 i = len(ev)
                 st = it[1] if it[0] == "S" else -1
-                ev.append(TG.kernel("Stream Sync" if it[0] == "S" else "Context Sync", f"$o{oi}y{j}_ts", f"$o{oi}y{j}_dur",
+                ev.append(TG.kernel("Stream Sync" if it[0] == "S" else "Context Sync", f"${tag}y{j}_ts", f"${tag}y{j}_dur",
                                     stream=st, corr=corr, cat="cuda_sync"))
-                y = {"id": i, "ts": f"$o{oi}y{j}_ts", "dur": f"$o{oi}y{j}_dur", "kind": "sync", "stream": st, "call": S,
+                y = {"id": i, "ts": f"${tag}y{j}_ts", "dur": f"${tag}y{j}_dur", "kind": "sync", "stream": st, "call": S,
                      "what": it, "waits": [k for k in K if it[0] == "D" or k["stream"] == it[1]]}
                 S["syncev"] = y
                 Y.append(y)
-                corr += 1
-    return ev, H, K, Y, ops
+                state["corr"] += 1
+        return O
+
+    ops = [add_op("aten::mm" if oi % 2 == 0 else "aten::add", f"o{oi}", items) for oi, items in enumerate(struct)]
+    return ev, H, K, Y, ops, allops
 
 
 def prepare(ctx, struct, step=True, pmode="free"):
     """instantiate, assume structure + causality, return (events, H, K, Y, ops, P)"""
-    ev, H, K, Y, ops = build(struct, step)
+    ev, H, K, Y, ops, allops = build(struct, step)
     events = ctx.val(ev)
     for x in H + K + Y:
         x["ts"], x["dur"] = ctx.val(x["ts"]), ctx.val(x["dur"])
@@ -130,7 +142,7 @@ def prepare(ctx, struct, step=True, pmode="free"):
     P = next((h for h in H if h["name"].startswith("ProfilerStep")), None)
     for h in H:
         ctx.assume(h["dur"] > 0)
-    for O in ops:
+    for O in allops:
         prev = None
         for c in O["children"]:
             ctx.assume(sand(O["ts"] < c["ts"], c["end"] < O["end"]))
@@ -161,7 +173,7 @@ def prepare(ctx, struct, step=True, pmode="free"):
         ctx.assume(sand(y["ts"] >= S["ts"], y["end"] == S["end"], y["ts"] <= y["end"]))
         if "waitevent" in S:
             # cudaStreamWaitEvent returns at once; the kernels launched later on that stream wait on the device
-            for O in ops:
+            for O in allops:
                 if S in O["children"]:
                     later = [c for c in O["children"][O["children"].index(S) + 1:] if "kernel" in c
                              and c["kernel"]["stream"] == S["waitevent"]["stream"]]
